@@ -298,7 +298,7 @@ func cliGenHistory(rng *rand.Rand, tier string) *cliScenario {
 			}
 			st.Op, st.Broker = "remove-broker", cand[rng.Intn(len(cand))]
 			delete(sh.brokers, st.Broker)
-		case k < 93:
+		case k < 91:
 			var cand []int32
 			for _, id := range ids {
 				if id != sc.Protect && sh.reachableWithout(id, lastRefresh, sc.Seeds) {
@@ -310,7 +310,28 @@ func cliGenHistory(rng *rand.Rand, tier string) *cliScenario {
 			}
 			st.Op, st.Broker = "readdress-broker", cand[rng.Intn(len(cand))]
 			sh.born[st.Broker] = len(sc.Steps)
-		case k < 97:
+		case k < 95: // one broker leaves and another joins between two refreshes: the list does not shrink
+			var cand []int32
+			for _, id := range ids {
+				if id != sc.Protect && sh.reachableWithout(id, lastRefresh, sc.Seeds) {
+					cand = append(cand, id)
+				}
+			}
+			if len(ids) < 2 || len(cand) == 0 || nextBroker > 7 {
+				continue
+			}
+			st.Op, st.Broker, st.N = "swap-broker", cand[rng.Intn(len(cand))], int(nextBroker)
+			delete(sh.brokers, st.Broker)
+			sh.brokers[nextBroker] = true
+			sh.born[nextBroker] = len(sc.Steps)
+			nextBroker++
+			if rng.Intn(3) == 0 && nextBroker <= 7 { // ... or grows
+				st.Sets = [][]int32{{nextBroker}}
+				sh.brokers[nextBroker] = true
+				sh.born[nextBroker] = len(sc.Steps)
+				nextBroker++
+			}
+		case k < 98:
 			st.Op = "set-controller"
 			if rng.Intn(4) == 0 {
 				st.Broker = 9
@@ -380,6 +401,12 @@ func cliApplyStep(sim *sarama.VSim, st *cliStep) {
 		sim.RemoveBroker(st.Broker)
 	case "readdress-broker":
 		sim.Readdress(st.Broker)
+	case "swap-broker":
+		sim.RemoveBroker(st.Broker)
+		sim.AddBroker(int32(st.N))
+		if len(st.Sets) == 1 {
+			sim.AddBroker(st.Sets[0][0])
+		}
 	case "set-controller":
 		sim.SetController(st.Broker)
 	}
